@@ -224,46 +224,78 @@ namespace nmtools::utl
         constexpr explicit either(const right_t& val) noexcept
             : right(val), tag{RIGHT} {}
         
+        // NOTE: the union member is not constructed yet, it must be copy-constructed in place (not assigned)
         constexpr either(const either& other)
         {
             tag = other.tag;
             if (other.tag == LEFT) {
-                if constexpr (meta::is_copy_assignable_v<left_t>) {
-                    left = other.left;
-                } else {
-                    new(&this->left) left_t(other.left);
-                }
+                new(&this->left) left_t(other.left);
             } else {
-                if constexpr (meta::is_copy_assignable_v<right_t>) {
-                    right = other.right;
-                } else {
-                    new(&this->right) right_t(other.right);
-                }
+                new(&this->right) right_t(other.right);
             }
         }
 
-        ~either() {}
+        ~either()
+        {
+            destroy();
+        }
 
+        // end the lifetime of the active alternative (no-op for trivially destructible alternatives)
+        constexpr void destroy() noexcept
+        {
+            if (tag == LEFT) {
+                left.~left_t();
+            } else {
+                right.~right_t();
+            }
+        }
+
+        // NOTE: only the active alternative holds a constructed object:
+        // assign to it when the alternative doesn't change (and is assignable),
+        // otherwise destroy the active one and copy-construct the new one in place
         template <typename U>
         constexpr either& operator=(const U& val) noexcept
         {
-            return base::operator=(val);
+            static_assert( meta::is_same_v<U,left_type> || meta::is_same_v<U,right_type> || meta::is_same_v<U,either>
+                , "unsupported type for either assignment"
+            );
+            if constexpr (meta::is_same_v<U,left_type>) {
+                if constexpr (meta::is_copy_assignable_v<left_t>) {
+                    if (tag == LEFT) {
+                        left = val;
+                        return *this;
+                    }
+                }
+                destroy();
+                new(&this->left) left_t(val);
+                tag = LEFT;
+                return *this;
+            } else if constexpr (meta::is_same_v<U,right_type>) {
+                if constexpr (meta::is_copy_assignable_v<right_t>) {
+                    if (tag == RIGHT) {
+                        right = val;
+                        return *this;
+                    }
+                }
+                destroy();
+                new(&this->right) right_t(val);
+                tag = RIGHT;
+                return *this;
+            } else {
+                return operator=(static_cast<const either&>(val));
+            }
         }
 
         constexpr either& operator=(const either& other) noexcept
         {
-            if (other.tag != tag) {
-                if (other.tag == LEFT) {
-                    // left = left_type{};
-                    new(&this->left) left_t{};
-                    tag = LEFT;
-                } else {
-                    // right = right_type{};
-                    new(&this->right) right_t{};
-                    tag = RIGHT;
-                }
+            if (this == &other) {
+                return *this;
             }
-            return base::operator=(other);
+            if (other.tag == LEFT) {
+                return operator=(other.left);
+            } else {
+                return operator=(other.right);
+            }
         }
     }; // either
 
@@ -301,44 +333,73 @@ namespace nmtools::utl
         constexpr explicit either(const right_t& val) noexcept
             : right(val), tag{RIGHT} {}
         
+        // NOTE: the union member is not constructed yet, it must be copy-constructed in place (not assigned)
         constexpr either(const either& other)
         {
             tag = other.tag;
             if (other.tag == LEFT) {
-                if constexpr (meta::is_copy_assignable_v<left_t>) {
-                    left = other.left;
-                } else {
-                    new(&this->left) left_t(other.left);
-                }
+                new(&this->left) left_t(other.left);
             } else {
-                if constexpr (meta::is_copy_assignable_v<right_t>) {
-                    right = other.right;
-                } else {
-                    new(&this->right) right_t(other.right);
-                }
+                new(&this->right) right_t(other.right);
             }
         }
 
+        // end the lifetime of the active alternative (no-op for trivially destructible alternatives)
+        constexpr void destroy() noexcept
+        {
+            if (tag == LEFT) {
+                left.~left_t();
+            } else {
+                right.~right_t();
+            }
+        }
+
+        // NOTE: only the active alternative holds a constructed object:
+        // assign to it when the alternative doesn't change (and is assignable),
+        // otherwise destroy the active one and copy-construct the new one in place
         template <typename U>
         constexpr either& operator=(const U& val) noexcept
         {
-            return base::operator=(val);
+            static_assert( meta::is_same_v<U,left_type> || meta::is_same_v<U,right_type> || meta::is_same_v<U,either>
+                , "unsupported type for either assignment"
+            );
+            if constexpr (meta::is_same_v<U,left_type>) {
+                if constexpr (meta::is_copy_assignable_v<left_t>) {
+                    if (tag == LEFT) {
+                        left = val;
+                        return *this;
+                    }
+                }
+                destroy();
+                new(&this->left) left_t(val);
+                tag = LEFT;
+                return *this;
+            } else if constexpr (meta::is_same_v<U,right_type>) {
+                if constexpr (meta::is_copy_assignable_v<right_t>) {
+                    if (tag == RIGHT) {
+                        right = val;
+                        return *this;
+                    }
+                }
+                destroy();
+                new(&this->right) right_t(val);
+                tag = RIGHT;
+                return *this;
+            } else {
+                return operator=(static_cast<const either&>(val));
+            }
         }
 
         constexpr either& operator=(const either& other) noexcept
         {
-            if (other.tag != tag) {
-                if (other.tag == LEFT) {
-                    // left = left_type{};
-                    new(&this->left) left_t{};
-                    tag = LEFT;
-                } else {
-                    // right = right_type{};
-                    new(&this->right) right_t{};
-                    tag = RIGHT;
-                }
+            if (this == &other) {
+                return *this;
             }
-            return base::operator=(other);
+            if (other.tag == LEFT) {
+                return operator=(other.left);
+            } else {
+                return operator=(other.right);
+            }
         }
     }; // either
     #endif
